@@ -10,20 +10,20 @@ def cfg : Hls.Cfg := Hls.genCfg
 /-- one event of a run (see harness/cmd/c10) -/
 inductive Ev
   | frame (f : AvFrame)
-  | seg (seq : Nat) (bytes : List UInt8)                      -- S: a segment became listed; bytes fetched through Segment(seq)
+  | seg (seq : Nat) (dur : Int) (bytes : List UInt8)          -- S: a segment became listed (its duration in ticks); bytes fetched through Segment(seq)
   | query (m3u8 : Option (List Char)) (seqs : List Nat) (durs : List Int) (hdrs : List Bool)
           (cur : Option (Nat × Int × Int)) (stable : Bool) (files : Option (List Nat))
   | hold (seq : Nat) (ok : Bool)
   | read (seq : Nat) (bytes : Option (List UInt8))
-  | curBytes (bytes : List UInt8)
+  | curBytes (seq : Nat) (bytes : List UInt8)
 
 def splitList (s : String) (sep : String) : List String :=
   if s = "-" ∨ s = "" then [] else s.splitOn sep
 
 def parseEv (s : String) : Option Ev :=
   match s.splitOn ":" with
-  | ["S", seq, h] => match seq.toNat?, hexToBytes h with
-    | some n, some b => some (.seg n b) | _, _ => none
+  | ["S", seq, d, h] => match seq.toNat?, d.toInt?, hexToBytes h with
+    | some n, some d, some b => some (.seg n d b) | _, _, _ => none
   | ["Q", m, seqs, durs, hdrs, cs, cd, cst, stable, files] =>
     let m3 := if m = "ERR" then some none else (hexToChars m).map some
     let cur := if cs = "-" then some none else
@@ -39,13 +39,15 @@ def parseEv (s : String) : Option Ev :=
     match seq.toNat? with
     | some n => if h = "ERR" then some (.read n none) else (hexToBytes h).map fun b => .read n (some b)
     | none => none
-  | ["C", h] => (hexToBytes h).map .curBytes
+  | ["C", seq, h] => match seq.toNat?, hexToBytes h with
+    | some n, some b => some (.curBytes n b) | _, _ => none
   | _ => (parseAv s).map .frame
 
 structure St where
   g        : Option Gen                 -- none after a panic
   srcs     : List IpcHub.TsSpec.Src     -- source frames so far (reversed)
   segs     : List (Nat × List UInt8)    -- S events so far (reversed): what the implementation served
+  durs     : List (Nat × Int)           -- observed duration of every completed segment
   held     : List (Nat × List UInt8)    -- readers taken: the bytes the segment had then (from S)
   corr     : Option String              -- first model/implementation difference
   spec     : Option String              -- first specification failure
@@ -76,8 +78,8 @@ def step (_p : IpcHub.TsSpec.Params) (m : Meta) (frag rate : Nat) (path token : 
         match Hls.writeFrame cfg frag rate g tf with
         | none => { st with g := none, panicked := true }
         | some g' => { st with g := some g' }
-  | .seg seq bytes =>
-    let st := { st with segs := (seq, bytes) :: st.segs }
+  | .seg seq dur bytes =>
+    let st := { st with segs := (seq, bytes) :: st.segs, durs := (seq, dur) :: st.durs }
     match st.g with
     | none => st
     | some g =>
@@ -129,30 +131,30 @@ def step (_p : IpcHub.TsSpec.Params) (m : Meta) (frag rate : Nat) (path token : 
     | some (_, b), some r => if r == b then st else noteSpec st "read-not-stable"
     | some _, none => noteSpec st "read-not-stable"
     | none, _ => st
-  | .curBytes bytes =>
+  | .curBytes seq bytes =>
+    let st := { st with segs := (seq, bytes) :: st.segs }
     match st.g with
     | none => st
     | some g =>
-      let st := { st with segs := (g.seqNo, bytes) :: st.segs }
       match g.current with
       | none => st
       | some s => if segBytes cfg s == bytes then st else noteCorr st s!"current-bytes:{cmpBytes (segBytes cfg s) bytes}"
 
 /-- the per-segment and cross-segment clauses, on the bytes the implementation served -/
-def finalSpec (p : IpcHub.TsSpec.Params) (st : St) (complete : Bool) : Except String Unit := do
+def finalSpec (p : IpcHub.TsSpec.Params) (frag : Nat) (st : St) (complete : Bool) : Except String Unit := do
   let segs := st.segs.reverse
   let mut pes : List IpcHub.HlsSpec.SegPes := []
   for (seq, b) in segs do
     let sp ← IpcHub.HlsSpec.demuxSegment b
     -- the audio-side reap may open a segment in the middle of a GOP (known, reported per class)
     if seq > 1 ∧ ¬ IpcHub.HlsSpec.startsWithKey p sp then
-      -- class by the cause, computed from the input through the model: was this segment opened by
-      -- the audio-side reap (duration ≥ 2 × fragment while a GOP is still running)?
-      let byAudio := match st.g with
-        | some g => ((g.deleted ++ g.playlist ++ g.current.toList).find? (·.seq = seq)).map (·.byAudio)
-        | none => none
-      throw (if byAudio = some true then "segment-not-starting-with-key:audio-side-reap"
-             else "segment-not-starting-with-key")
+      -- class by the cause, from the implementation's own observations: the audio-side reap fires
+      -- only when the segment before lasted at least 2 × fragment (known open finding); a segment
+      -- opened earlier than that in mid-GOP is a different failure
+      let prevLong : Bool := match st.durs.find? (·.1 = seq - 1) with
+        | some (_, d) => decide (d ≥ 2 * (frag : Int) * 90000)
+        | none => false
+      throw (cond prevLong "segment-not-starting-with-key:audio-side-reap" "segment-not-starting-with-key")
     pes := pes ++ [sp]
   if ¬ IpcHub.HlsSpec.consecutive (segs.map (·.1)) then throw "segment-numbers-not-consecutive"
   IpcHub.HlsSpec.checkExactlyOnce p st.srcs.reverse pes complete
@@ -175,12 +177,12 @@ def handle : List String → String
                         srIndex := (if a.extSampleRate > 0 then a.extSamplingIndex else a.samplingIndex),
                         chanCfg := a.channelConfig }
           | none => { sps, pps, aot := 0, srIndex := 0, chanCfg := 0 }
-        let st0 : St := { g := some Hls.init, srcs := [], segs := [], held := [], corr := none, spec := none, panicked := false }
+        let st0 : St := { g := some Hls.init, srcs := [], segs := [], durs := [], held := [], corr := none, spec := none, panicked := false }
         let st := evs.foldl (step p m frag rate path token) st0
-        let complete := evs.any (fun e => match e with | .curBytes _ => true | _ => false)
+        let complete := evs.any (fun e => match e with | .curBytes _ _ => true | _ => false)
         let spec := match st.spec with
           | some e => "fail:" ++ e
-          | none => if st.panicked then "skip" else IpcHub.HlsSpec.verdict (finalSpec p st complete)
+          | none => if st.panicked then "skip" else IpcHub.HlsSpec.verdict (finalSpec p frag st complete)
         let model := match st.corr with | some e => "diff:" ++ e.replace " " "_" | none => "ok"
         s!"model={model} panic={boolStr st.panicked} spec={spec}"
     | _, _, _, _, _, _, _ => "bad-op"
